@@ -21,7 +21,7 @@ PROP = dict(
     engines=[dict(
         name="compvec", classify=classify, extra=["--mode", "rollback"],
         quick=dict(cases=480, shards=16, profiles=["debug"]),
-        thorough=dict(cases=32000, shards=16, profiles=["debug", "release"]),
+        thorough=dict(cases=8000, shards=16, profiles=["debug", "release"]),
     )],
     extra_targets=["Props/C04comp.vo", "Props/C16comp.vo", "Vec/CvInstProofs.vo"],
     rule="commit/rollback histories on PcoVec/LZ4Vec/ZstdVec (+EagerVec wrappers), retention 1..4, 8-26 operations: pushes "
